@@ -514,7 +514,7 @@ func eventStreamRun(keyed bool) func(h []dsim.Rec) {
 	e.peerAPHeartbeats = cfg.srEnable && cfg.dialectKind == 0 && cfg.inKey == nil
 	e.w.ChunkMode = dsim.Choose(3)
 	e.w.SendBuf = dsim.Pick(1<<16, 4096, 300)
-	neps := 1 + dsim.Choose(3)
+	neps := 1 + dsim.Choose(depth(3, 5))
 	kinds := []int{epCustom, epTCPServer, epTCPClient, epUDPServer, epSerial, epUDPClient, epBroadcast}
 	for i := 0; i < neps; i++ {
 		e.addEndpoint(kinds[dsim.Choose(len(kinds))])
@@ -538,7 +538,7 @@ func eventStreamRun(keyed bool) func(h []dsim.Rec) {
 	// peers of client-type endpoints listen before the node starts
 	cons := &consumer{e: e, pace: dsim.Choose(3)}
 	e.cons = cons
-	e.drivePeers(d, true, true, 12)
+	e.drivePeers(d, true, true, depth(12, 30))
 	if err := e.startNode(); err != nil {
 		dsim.Failf("harness", "node did not initialise: %v", err)
 		return nil
